@@ -1,4 +1,5 @@
 import PrioModel.Field
+import PrioModel.Messages
 
 /-! Line-protocol driver: one request per line on stdin, one answer per line on stdout. -/
 open Prio
@@ -76,9 +77,71 @@ def handleFeDec (mask : Gen.FpParams → Nat) (args : List String) : String :=
     | _, _ => "bad-op"
   | _ => "bad-op"
 
+/-- wire format named by the words after `dec`; the last word is the hex input -/
+def msgFmt (ws : List String) : Option Fmt :=
+  open Msg in
+  let b (s : String) : Bool := s == "1"
+  match ws with
+  | ["u", n] => n.toNat?.map Fmt.uint
+  | ["felem", f] => (fieldSpec f).map felem
+  | ["seed", n] => n.toNat?.map seed
+  | ["fvec", f, n] => do pure (fvec (← fieldSpec f) (← n.toNat?))
+  | ["p3pub", ss, na, jr] => do pure (prio3PublicShare (← ss.toNat?) (← na.toNat?) (← jr.toNat?))
+  | ["p3in", f, ss, na, id, il, pl, jr] => do
+    pure (prio3InputShare (← fieldSpec f) (← ss.toNat?) (← na.toNat?) (← id.toNat?) (← il.toNat?) (← pl.toNat?) (← jr.toNat?))
+  | ["p3st", f, ss, na, id, ol, jr] => do
+    pure (prio3VerifyState (← fieldSpec f) (← ss.toNat?) (← na.toNat?) (← id.toNat?) (← ol.toNat?) (← jr.toNat?))
+  | ["p3vs", f, ss, vl, hj] => do pure (prio3VerifierShare (← fieldSpec f) (← ss.toNat?) (← vl.toNat?) (b hj))
+  | ["p3vm", ss, hj] => do pure (prio3VerifierMessage (← ss.toNat?) (b hj))
+  | ["p2st", id, il] => do pure (prio2VerifyState (← fieldSpec "FP32") (← id.toNat?) (← il.toNat?))
+  | ["p2in", id, pl] => do pure (prio2InputShare (← fieldSpec "FP32") (← id.toNat?) (← pl.toNat?))
+  | ["p2vs"] => do pure (prio2VerifierShare (← fieldSpec "FP32"))
+  | ["idpfpub", bits] => do pure (idpfPublicShare (← fieldSpec "FP64") (← fieldSpec "F255") (← bits.toNat?) false)
+  | ["pop1in", ss, bits] => do
+    pure (poplar1InputShare (← fieldSpec "FP64") (← fieldSpec "F255") (← ss.toNat?) (← bits.toNat?) false)
+  | ["pop1st"] => do pure (poplar1VerifyState (← fieldSpec "FP64") (← fieldSpec "F255"))
+  | ["pop1vm", leaf, r2] => do pure (poplar1VerifierMessage (← fieldSpec "FP64") (← fieldSpec "F255") (b leaf) (b r2))
+  | ["pop1vs", leaf, r2] => do pure (poplar1VerifierShare (← fieldSpec "FP64") (← fieldSpec "F255") (b leaf) (b r2))
+  | ["pop1cont"] => do pure (poplar1Continuation (← fieldSpec "FP64") (← fieldSpec "F255"))
+  | ["pop1agg"] => some (poplar1AggParam false)
+  | ["ppmsg"] => some pingPongMessage
+  | _ => none
+
+def handleDec (args : List String) : String :=
+  match args.reverse with
+  | h :: revFmt =>
+    match msgFmt revFmt.reverse, parseHex h with
+    | some f, some bytes =>
+      match getDecoded f bytes with
+      | .ok v => "ok " ++ toHex (encode f v)
+      | .err => "err"
+      | .panic => "panic"
+    | _, _ => "bad-op"
+  | [] => "bad-op"
+
+/-- the Rust `encoded_len()` formulas of the message types whose length is not a plain product -/
+def handleEncLen (args : List String) : String :=
+  let some' (n : Nat) := s!"Some({n})"
+  match args with
+  | ["pop1in", ss, inner] =>
+    match ss.toNat?, inner.toNat? with
+    | some s, some i => some' (Msg.poplar1InputShareLen 16 s i)
+    | _, _ => "bad-op"
+  | ["pop1agg", level, n] =>
+    match level.toNat?, n.toNat? with
+    | some l, some k => some' (Msg.poplar1AggParamLen l k)
+    | _, _ => "bad-op"
+  | ["idpfpub", bits] =>
+    match bits.toNat? with
+    | some b => some' (Msg.idpfPublicShareLen b)
+    | _ => "bad-op"
+  | _ => "bad-op"
+
 def handle (line : String) : String :=
   match line.trimAscii.toString.splitOn " " with
   | "fp" :: rest => handleFp rest
+  | "dec" :: rest => handleDec rest
+  | "enclen" :: rest => handleEncLen rest
   | "fe" :: rest => handleFe rest
   | "fedec" :: rest => handleFeDec (fun P => P.R - 1) rest
   | "ferand" :: rest => handleFeDec (fun P => P.bitMask) rest
